@@ -619,6 +619,12 @@ func runC05(c *ev.Ctx) {
 	// validate the reference FFT itself by direct summation before trusting it
 	validateOracleFFT(c, seed)
 	runSeqWorks(c, works)
+	if c.Thorough() {
+		// the library's documented maximum: 10^8 bits -> 2^27 points (about 6 GB in the library, 5 GB in
+		// the reference); one case, run alone
+		runSeqWorks(c, []seqWork{{Seq: gen.Seq{Fam: "uniform", N: 100000000, Seed: gen.Mix(seed, 4)}, Specs: dft(100000000)}})
+		c.Count("cases_at_10^8_bits", 1)
+	}
 }
 
 // validateOracleFFT checks the oracle's FFT against O(N^2) summation (all bins, N <= 2^10) and seeded bins above.
